@@ -23,6 +23,8 @@ LEVEL = 'other'
 
 # D3 — reviewed sites the prover cannot discharge. key = (function short path regex, kind, desc): reason
 ALLOW = [
+    (r'Channel::recv_tcp_sockets$', 'api', 'remove',
+     'ArrayVec::remove(i): i is the position just found by iter_mut().enumerate().find_map over the same vector, with no modification in between'),
     (r'checksum::sum_be_words$', 'Overflow:Add', 'Add u32',
      'u32 sum of 16-bit words: the receive path only sums quotations that fit the ≤1024-byte packet buffers (≤ 512 words, < 2^26)'),
     (r'checksum::sum_be_words$', 'Overflow:Add', 'Add usize',
@@ -113,9 +115,13 @@ def _lemma(chk, prog):
             chk.ok('L', tag, 'only new/new_view build it; min=%d (the guard itself is C12.O5)' % mn)
 
 
-def audit_scope(chk, prog, cg, roots, scope, tier, rid_s, rid_t, allow, boundary, inline_depth=3, caller_depth=3, hints=(), invariants=()):
+def audit_scope(chk, prog, cg, roots, scope, tier, rid_s, rid_t, allow, boundary, inline_depth=3, caller_depth=3, hints=(), invariants=(), inline_filter=None, loop_allow=()):
     A = Audit(prog, inline_depth=inline_depth, caller_depth=caller_depth + (1 if tier == 'thorough' else 0))
     A.cg = cg
+    if inline_filter is not None:
+        # a regex of callees that are a boundary for this audit (never inlined; their own safety is another check's obligation)
+        A.never_inline = re.compile(inline_filter)
+        A.eng.inline_filter = lambda callee: not A.never_inline.search(callee)
     A.eng.range_hints = [(re.compile(rx), lo, hi) for (rx, lo, hi) in hints]
     A.eng.invariants = list(invariants)
     A.analyse_all(scope)
@@ -136,6 +142,9 @@ def audit_scope(chk, prog, cg, roots, scope, tier, rid_s, rid_t, allow, boundary
                 # accounted through the Overflow:* evaluations recorded at the same terminator
                 pass
             st, why, w = A.verdict(path, bb, scope)
+            if k in ('api', 'arith-trait') and not A.evals_of(path, bb):
+                # a panicking API the engine does not model records no evaluation: "no failed evaluation" must not read as "unreached"
+                st, why, w = 'open', 'panicking API contract not modelled by the engine: needs a reviewed entry', None
             if st in ('proved', 'unreached'):
                 classes['D2' if st == 'proved' else 'D0'] += 1
                 chk.ok(rid_s, inst, st if st == 'proved' else 'not reachable on any abstract trace', nontrivial=(st == 'proved'))
@@ -177,6 +186,8 @@ def audit_scope(chk, prog, cg, roots, scope, tier, rid_s, rid_t, allow, boundary
                 chk.ok(rid_t, '%s|%s' % (short(path), shape[0]), shape[1])
             elif rk and rk[0]:
                 chk.ok(rid_t, '%s|ranking' % short(path), rk[1])
+            elif any(re.search(rx, short(path)) for rx, _ in loop_allow):
+                chk.ok(rid_t, '%s|allowed' % short(path), [why for rx, why in loop_allow if re.search(rx, short(path))][0], nontrivial=False)
             else:
                 chk.fail(rid_t, '%s|loop' % short(path), fn_loc(fn), 'loop in %s: no recognised terminating shape and no ranking argument (%s)' % (
                     short(path), rk[2] if rk else 'not analysed'), key='%s|%s|loop' % (rid_t, short(path)))
